@@ -216,7 +216,7 @@ def check_tracker(out, facts):
     writers = set()
     from .c19 import _writes_field
     for g in facts.fns:
-        if g.get('thir') and _writes_field(g['thir'], 'depth') and 'DepthTrackingInput' in (g.get('self') or ''):
+        if g.get('thir') and _writes_field(g['thir'], 'depth', facts) and 'DepthTrackingInput' in (g.get('self') or ''):
             writers.add(g.get('method'))
     out.ob('R11.3', 'DepthTrackingInput.depth writers [%s]' % cfg, writers <= {'descend_ref', 'ascend_ref'},
            'depth is also written by %s' % sorted(writers - {'descend_ref', 'ascend_ref'}), '-')
@@ -233,7 +233,7 @@ def check_tracker(out, facts):
             a = decs[0][4]
             flds = {i: sym.vstr(x) for i, x in a[3]}
             adt = facts.adt_by_path.get(a[1])
-            names = [fl_['name'] for fl_ in adt['variants'][0]['fields']] if adt else []
+            names = [facts.canon_field(a[1], fl_['name']) for fl_ in adt['variants'][0]['fields']] if adt else []
             byname = {names[i]: s for i, s in flds.items() if i < len(names)}
             ok = a[1].endswith('DepthTrackingInput') and byname.get('input') == 'input' and byname.get('depth') == '0:u32' and byname.get('max_depth') == 'limit'
             ok = ok and sym.vstr(v) == 'Ok(decoded#%s:%s)' % (decs[0][2], decs[0][1])
